@@ -8,55 +8,6 @@ import PygProofs.Lemmas.TableRows
 namespace Pyg
 namespace Table
 
-/-! ### positions of the true flags = filter -/
-
-theorem mem_zip_range {α} {n : Nat} {xs : List α} {j : Nat} {x : α} (h : (j, x) ∈ (List.range n).zip xs) :
-    xs[j]? = some x := by
-  obtain ⟨i, hi, he⟩ := List.mem_iff_getElem.1 h
-  rw [List.getElem_zip] at he
-  simp only [List.getElem_range, Prod.mk.injEq] at he
-  obtain ⟨rfl, rfl⟩ := he
-  have : i < xs.length := by
-    simp only [List.length_zip, List.length_range] at hi
-    omega
-  simp [this]
-
-/-- selecting by the positions of the true flags of `xs.map p` is `xs.filter p` -/
-theorem positions_filter {α} (xs : List α) (p : α → Bool) (d : α) :
-    ((((List.range xs.length).zip (xs.map p)).filter (·.2)).map (·.1)).map (fun j => xs.getD j d)
-      = xs.filter p := by
-  rw [List.zip_map_right, List.filter_map, List.map_map, List.map_map]
-  have h2 : ((fun x : Nat × Bool => x.2) ∘ Prod.map id p) = (p ∘ Prod.snd : Nat × α → Bool) := by
-    funext q; rfl
-  rw [h2]
-  refine Eq.trans (List.map_congr_left (g := Prod.snd) ?_) ?_
-  · intro q hq
-    have hm := (List.mem_filter.1 hq).1
-    have := mem_zip_range (j := q.1) (x := q.2) hm
-    simp [List.getD_eq_getElem?_getD, this]
-  · rw [← List.filter_map, List.map_snd_zip (by simp)]
-
-theorem positions_range (n : Nat) (m : List Bool) (hm : m.length = n) :
-    (((List.range n).zip m).filter (·.2)).map (·.1) = (List.range n).filter fun i => m.getD i false := by
-  have hmm : m = (List.range n).map fun i => m.getD i false := by
-    apply List.ext_getElem
-    · simp [hm]
-    · intro i h1 h2
-      simp [List.getD_eq_getElem?_getD, h1]
-  have := positions_filter (List.range n) (fun i => m.getD i false) 0
-  simp only [List.length_range] at this
-  rw [← hmm] at this
-  rw [← this]
-  symm
-  calc List.map (fun j => (List.range n).getD j 0) _ = List.map (fun j => j) _ := by
-        apply List.map_congr_left
-        intro j hj
-        obtain ⟨q, hq, rfl⟩ := List.mem_map.1 hj
-        have := (List.of_mem_zip (a := q.1) (b := q.2) (List.mem_filter.1 hq).1).1
-        have hlt : q.1 < n := by simpa using this
-        simp [List.getD_eq_getElem?_getD, hlt]
-    _ = _ := by simp
-
 /-! ### gathering twice -/
 
 theorem gatherRows_gatherRows (t : Table) (idx idx2 : List Nat) (h : ∀ j ∈ idx2, j < idx.length) :
